@@ -471,8 +471,11 @@ class Concretizer:
         return out
 
 
-def new_exec(prog, **kw):
-    ex = Exec(prog, TOK_MODELS, **kw)
+def new_exec(prog, models=None, **kw):
+    ex = Exec(prog, models or TOK_MODELS, **kw)
+    if models is not None and "fmt::format" in models:
+        from .C04 import install_placeholder_hooks
+        install_placeholder_hooks(ex)
     ex.intern_hooks = (intern_hook,)
     # make sure the common literals have stable small ids
     for s in ("", "--", "-"):
